@@ -96,7 +96,7 @@ Definition check_trigger (t : tcase) : list (N * N) :=
       let lib_ok := match o, tlibcode t with
                     | Failed e, Some c => exit_code e =? c
                     | Success, None => true
-                    | Failed E_Foreign, None => true
+                    | Failed _, None => true   (* not run through the library / not a query.Error *)
                     | _, _ => false
                     end in
       let bin_ok := (tstatus t =? -1) || (process_status o =? tstatus t) in
